@@ -82,19 +82,26 @@ def mk_translate(name, axis, lo, hi, keep, rotation=None, extra_args=(), params=
             a.x, a.y, a.z = v
         other = M.run(txt, args=(['--keep-protons'] if keep else []) + list(extra_args), transform=tr, params=params)
         M.compare_heavy(ctx, 'pose', base, other)
+        # 'Hetero groups are excluded from the last two claims': in a structure with a ligand neither pKa values nor the
+        # ligand's hydrogens are claimed (which carboxylate oxygen of a ligand is typed O.co2- follows the bond-list order)
+        hetero = {M.akey(a) for a in base.conformations['1A'].atoms if a.type != 'atom'}
         if keep:
-            M.compare_results(ctx, 'pose(keep-protons)', base, other)
+            if not hetero:
+                M.compare_results(ctx, 'pose(keep-protons)', base, other)
         else:
-            M.compare_results(ctx, 'pose(built-hydrogens)', base, other, tol=TOL)
+            if not hetero:
+                M.compare_results(ctx, 'pose(built-hydrogens)', base, other, tol=TOL)
             # hydrogens: same set, positions equal up to the rigid motion and rounding
             # names of the hydrogens on one atom may be exchanged (the bond-list
             # order is frame dependent); compare the set of positions per parent atom
             hb, ho = M.hydrogens(base), M.hydrogens(other)
             pb_, po_ = {}, {}
             for key, v in hb.items():
-                pb_.setdefault(v[3], []).append(v[:3])
+                if v[3] not in hetero:
+                    pb_.setdefault(v[3], []).append(v[:3])
             for key, v in ho.items():
-                po_.setdefault(v[3], []).append(v[:3])
+                if v[3] not in hetero:
+                    po_.setdefault(v[3], []).append(v[:3])
             ctx.claim('same-number-of-hydrogens-per-atom', {k: len(v) for k, v in pb_.items()} == {k: len(v) for k, v in po_.items()},
                       detail='%r vs %r' % ({k: len(v) for k, v in pb_.items()}, {k: len(v) for k, v in po_.items()}))
             for parent in pb_:
